@@ -35,8 +35,54 @@ import collections as _collections
 _BARE = _collections.OrderedDict()
 
 
+_INIT_DEFAULTS = {}
+
+
+def _init_defaults(cls):
+    """attributes the class's own constructor sets to a literal (self.x = None / 0 / '' / {} / [] ...), read from the current source:
+    the state a constructor gives every instance regardless of its arguments (a cache a refactoring adds, say)"""
+    import ast
+    import copy
+    init = cls.__dict__.get("__init__")
+    code = getattr(init, "__code__", None)
+    if code is None:
+        return {}
+    key = (code.co_filename, cls.__qualname__)
+    if key not in _INIT_DEFAULTS:
+        out = {}
+        try:
+            tree = ast.parse(open(code.co_filename).read())
+            node = tree
+            for part in cls.__qualname__.split("."):
+                node = next(n for n in node.body if isinstance(n, (ast.ClassDef, ast.FunctionDef)) and n.name == part)
+            fn = next(n for n in node.body if isinstance(n, ast.FunctionDef) and n.name == "__init__")
+            for st in fn.body:
+                tgt = None
+                if isinstance(st, ast.Assign) and len(st.targets) == 1:
+                    tgt, val = st.targets[0], st.value
+                elif isinstance(st, ast.AnnAssign) and st.value is not None:
+                    tgt, val = st.target, st.value
+                if isinstance(tgt, ast.Attribute) and isinstance(tgt.value, ast.Name) and tgt.value.id == "self":
+                    try:
+                        if isinstance(val, ast.Call) and isinstance(val.func, ast.Name) and val.func.id in ("dict", "list", "set") and not val.args and not val.keywords:
+                            out[tgt.attr] = {"dict": {}, "list": [], "set": set()}[val.func.id]
+                        else:
+                            out[tgt.attr] = ast.literal_eval(val)
+                    except Exception:
+                        pass
+        except Exception:
+            out = {}
+        _INIT_DEFAULTS[key] = out
+    return copy.deepcopy(_INIT_DEFAULTS[key])
+
+
 def bare(cls):
     obj = object.__new__(cls)
+    for k, v in _init_defaults(cls).items():
+        try:
+            setattr(obj, k, v)
+        except Exception:
+            pass
     _BARE[id(obj)] = obj
     while len(_BARE) > 20000:
         _BARE.popitem(last=False)
